@@ -65,7 +65,9 @@ def floors(tier):
     f = {"evaluations": 100 * k, "states:bmps": 5 * k, "states:ctm": 5 * k, "states:bp": 5 * k, "states:ntu": 10 * k,
          "evolution_steps": 30 * k, "values_compared": 2000 * k, "values_nontrivial": 600 * k, "identity_measured": 100 * k,
          "odd_operator_values": 300 * k, "reversed_order_values": 100 * k, "restriction_raises_counted": 20 * k,
-         "metrics_checked": 300 * k, "fermionic_states": 40 * k}
+         "metrics_checked": 300 * k, "fermionic_states": 40 * k, "measure_2site_subwindows": 20 * k,
+         "measure_2site_subwindows_open_edge_3steps": 4 * k, "measure_nn_dict_order:reversed": 3 * k,
+         "measure_nn_dict_order:shuffled": 8 * k}
     for fn in ("measure_1site", "measure_nn", "measure_2site", "measure_nsite"):
         f["fn:EnvBoundaryMPS." + fn] = 15 * k
     for fn in ("measure_1site", "measure_nn", "measure_2site", "measure_2x2", "measure_line", "measure_nsite",
@@ -84,7 +86,7 @@ def floors(tier):
 
 # ------------------------------------------------------------------------------------------------ states
 
-QUICK_LAT = ((2, 2), (2, 2), (2, 3), (3, 2), (1, 3), (3, 1), (1, 4), (4, 1), (1, 2), (2, 1))
+QUICK_LAT = ((2, 2), (2, 3), (2, 3), (3, 2), (3, 2), (1, 3), (3, 1), (1, 4), (4, 1), (1, 2), (2, 1))
 THOROUGH_LAT = QUICK_LAT + ((3, 3), (3, 3), (2, 3), (3, 2), (1, 5), (5, 1), (2, 4), (4, 2))
 STRIPS = ((1, 2), (2, 1), (1, 3), (3, 1), (1, 4), (4, 1), (1, 5), (5, 1), (1, 6), (6, 1))
 
@@ -364,6 +366,19 @@ def battery_bmps(ctx, idx, rng, nprng, lattices):
         for bd in use:
             if bd in out:
                 B.judge("measure_nn", [a, b], bd, out[bd])
+    use = (vb if has_lr else []) + (hb if has_tb else [])
+    if use:
+        # dict form, bonds listed in reversed / shuffled order, a different operator pair on every bond
+        for _ in range(2):
+            order, how = bond_order(rng, use)
+            per = {bd: rng.choice(pairs) for bd in order}
+            out = env.measure_nn({bd: (o[per[bd][0]], o[per[bd][1]]) for bd in order})
+            ctx.count("measure_nn_dict_order:" + how)
+            if set(out) != set(order):
+                ctx.violation("keys:EnvBoundaryMPS.measure_nn", f"measure_nn(dict) returned keys {sorted(out)} for bonds {order}")
+            for bd in order:
+                if bd in out:
+                    B.judge("measure_nn", list(per[bd]), bd, out[bd], ":dict-" + how)
     # ---- measure_2site
     for dirn, ok in (("v", has_lr), ("h", has_tb)):
         if not ok:
@@ -374,6 +389,10 @@ def battery_bmps(ctx, idx, rng, nprng, lattices):
             check_2site_keys(ctx, B, "EnvBoundaryMPS", out, pm, dirn, (0, Nx), (0, Ny))
             for (s0, s1), v in out.items():
                 B.judge("measure_2site", [a, b], [tuple(s0), tuple(s1)], v, ":" + dirn)
+    windows_2site(ctx, B, env, "EnvBoundaryMPS", rng, pairs, opts, Nx, Ny, [d for d, ok in (("v", has_lr), ("h", has_tb)) if ok])
+    for dirn, ok in (("v", has_lr), ("h", has_tb)):
+        if ok:
+            probe_pairs_list(ctx, B, env, rng, pairs, opts, dirn)
     # single-direction set-ups: the only windows that need no other boundary
     single = {"r": ("v", None, (0, 1)), "l": ("v", None, (Ny - 1, Ny)), "b": ("h", (0, 1), None), "t": ("h", (Nx - 1, Nx), None)}
     for ch, (dirn, xr, yr) in single.items():
@@ -412,6 +431,85 @@ def battery_bmps(ctx, idx, rng, nprng, lattices):
 
     run_nsite_tuples(ctx, B, rng, nsite, pairs)
     finish(ctx, B, ("bmps", setup))
+
+
+PAIR_MODES = ("corner <=", "row <=", "<=", "<", "corner <", "=", "row <")
+
+
+def sub_windows(rng, Nx, Ny, dirn):
+    """proper sub-windows (xrange, yrange) of the lattice for measure_2site.
+
+    Always included when the lattice allows it: a window of >= 3 boundary-MPS steps (columns for dirn='v', rows for 'h')
+    whose last row (column) is NOT the last one of the lattice, so that the legs leaving the window carry charge and
+    every piece of the fermionic string at the window's edge matters; plus one random proper sub-window."""
+    out = []
+    if dirn == "v" and Ny >= 3 and Nx >= 2:
+        x0 = rng.randrange(0, Nx - 1)
+        x1 = rng.randint(x0 + 1, Nx - 1)
+        y0 = rng.randrange(0, Ny - 2)
+        out.append(((x0, x1), (y0, rng.randint(y0 + 3, Ny))))
+    if dirn == "h" and Nx >= 3 and Ny >= 2:
+        y0 = rng.randrange(0, Ny - 1)
+        y1 = rng.randint(y0 + 1, Ny - 1)
+        x0 = rng.randrange(0, Nx - 2)
+        out.append(((x0, rng.randint(x0 + 3, Nx)), (y0, y1)))
+    for _ in range(20):
+        x0, y0 = rng.randrange(Nx), rng.randrange(Ny)
+        w = ((x0, rng.randint(x0 + 1, Nx)), (y0, rng.randint(y0 + 1, Ny)))
+        if w != ((0, Nx), (0, Ny)) and w not in out and (w[0][1] - w[0][0]) * (w[1][1] - w[1][0]) >= 2:
+            out.append(w)
+            break
+    return out
+
+
+def windows_2site(ctx, B, env, envname, rng, pairs, opts, Nx, Ny, dirns):
+    """measure_2site restricted to explicit (xrange, yrange) windows, odd operator pair first."""
+    o = B.F.cat
+    for dirn in dirns:
+        for wi, (xr, yr) in enumerate(sub_windows(rng, Nx, Ny, dirn)):
+            for a, b in pairs[:1] if (ctx.tier == "quick" or wi > 0) else pairs:
+                pm = rng.choice([m for m in PAIR_MODES if "<" in m]) if wi == 0 else rng.choice(PAIR_MODES)
+                out = env.measure_2site(o[a], o[b], xrange=xr, yrange=yr, pairs=pm, dirn=dirn, opts_svd=dict(opts))
+                check_2site_keys(ctx, B, envname, out, pm, dirn, xr, yr)
+                ctx.count("measure_2site_subwindows")
+                if (xr[1] < Nx and yr[1] - yr[0] >= 3) if dirn == "v" else (yr[1] < Ny and xr[1] - xr[0] >= 3):
+                    ctx.count("measure_2site_subwindows_open_edge_3steps")
+                for (s0, s1), v in out.items():
+                    B.judge("measure_2site", [a, b], [tuple(s0), tuple(s1)], v, ":" + dirn + ":subwindow")
+
+
+def probe_pairs_list(ctx, B, env, rng, pairs, opts, dirn):
+    """measure_2site with an explicit LIST of pairs.  Even operators: judged (the docstring offers a list).  Parity-odd
+    operators: at HEAD the string swaps on sites between O0 and O1 are only added for listed pairs, so a lone distant
+    pair comes out wrong; this is reported (counted), not judged."""
+    o = B.F.cat
+    so = (lambda s: s) if dirn == "h" else (lambda s: s[::-1])
+    cand = [(s0, s1) for s0 in B.sites for s1 in B.sites if so(s0) < so(s1)]
+    if not cand:
+        return
+    lst = rng.sample(cand, min(len(cand), rng.randint(1, 2)))
+    for (a, b), judged in ((pairs[-1], True), (pairs[0], False)):
+        odd = B.klass([a, b], lst[0])[0]
+        if odd == judged:
+            continue
+        out = env.measure_2site(o[a], o[b], pairs=list(lst), dirn=dirn, opts_svd=dict(opts))
+        for (s0, s1), v in out.items():
+            if judged:
+                B.judge("measure_2site", [a, b], [tuple(s0), tuple(s1)], v, ":" + dirn + ":pairs-list")
+            else:
+                bad = abs(complex(v) - B.dense([a, b], [tuple(s0), tuple(s1)])) > B.tol([a, b])
+                ctx.count("probe:measure_2site_pairs_list_odd:" + ("mismatch" if bad else "agree"))
+
+
+def bond_order(rng, bonds):
+    """the same bonds in a non-natural order (reversed / shuffled); measure_nn must not depend on it."""
+    bonds = list(bonds)
+    how = rng.choice(("reversed", "shuffled", "shuffled"))
+    if how == "reversed":
+        bonds.reverse()
+    else:
+        rng.shuffle(bonds)
+    return bonds, how
 
 
 def check_2site_keys(ctx, B, envname, out, pm, dirn, xr, yr):
@@ -514,6 +612,23 @@ def battery_ctm(ctx, idx, rng, nprng, lattices):
             check_2site_keys(ctx, B, "EnvCTM", out, pm, dirn, (0, Nx), (0, Ny))
             for (s0, s1), v in out.items():
                 B.judge("measure_2site", [a, b], [tuple(s0), tuple(s1)], v, ":" + dirn)
+    windows_2site(ctx, B, env, "EnvCTM", rng, pairs, opts, Nx, Ny, "vh")
+    for dirn in "vh":
+        probe_pairs_list(ctx, B, env, rng, pairs, opts, dirn)
+    # ---- measure_nn for a sequence of bonds in reversed / shuffled order (mixed orientations), per-site operator dicts
+    for a, b in pairs:
+        order, how = bond_order(rng, [bd if rng.random() < 0.6 else bd[::-1] for bd in bonds])
+        out = env.measure_nn({s: o[a] for s in B.sites}, {s: o[b] for s in B.sites}, bond=order)
+        ctx.count("measure_nn_dict_order:" + how)
+        for bd in order:
+            B.judge("measure_nn", [a, b], bd, out[bd], ":bond-list:" + g.nn_bond_dirn(*bd))
+    # probe (reported, not judged: the docstring names single tensors only): lists of operators per site
+    a, b = pairs[0]
+    try:
+        out = env.measure_nn([o[pairs[-1][0]], o[a]], [o[pairs[-1][1]], o[b]], bond=bonds[0])
+        ctx.count("probe:EnvCTM.measure_nn_operator_lists:returned")
+    except Exception as e:      # undocumented input form: whatever happens is only recorded
+        ctx.count("probe:EnvCTM.measure_nn_operator_lists:" + type(e).__name__)
     # ---- n-site functions over all ordered pairs and random tuples
     has_2x2 = Nx >= 2 and Ny >= 2
     strip_reported = []
@@ -604,6 +719,10 @@ def battery_bp(ctx, idx, rng, nprng, lattices):
             B.judge("measure_nn", [a, b], bd, out[bd], ":" + g.nn_bond_dirn(*bd))
             rb = bd[::-1]
             B.judge("measure_nn", [a, b], rb, env.measure_nn(o[a], o[b], bond=rb), ":" + g.nn_bond_dirn(*rb))
+    a, b = B.op_pairs(rng, 1, 0)[0]
+    out = env.measure_nn({s: o[a] for s in B.sites}, {s: o[b] for s in B.sites})      # dict (site -> operator) form
+    for bd in bonds:
+        B.judge("measure_nn", [a, b], bd, out[bd], ":site-dict:" + g.nn_bond_dirn(*bd))
     finish(ctx, B, ("bp", env.which, info.sweeps))
 
 
@@ -869,4 +988,5 @@ def finalize(cov, merged):
     cov["metrics_by_cluster"] = {k[7:]: int(v) for k, v in sorted(c.items()) if k.startswith("metric:")}
     cov["evolution_by_environment"] = {k[5:]: int(v) for k, v in sorted(c.items()) if k.startswith("evol:")}
     cov["not_judged"] = {k: int(v) for k, v in sorted(c.items()) if k.startswith("nsite_default_truncation") or
-                         k.startswith("metric_identically_zero") or k.startswith("evolution_zero_metric")}
+                         k.startswith("metric_identically_zero") or k.startswith("evolution_zero_metric") or
+                         k.startswith("probe:")}
